@@ -187,6 +187,8 @@ AuthEvents(s) ==
   \cup UpdProposer(AuthSigners, {1}, {"p1", "p2"})
   \cup UpdChallenger(AuthSigners, {1}, {"c1", "c2"})
   \cup (IF Len(s.batch["1"]) <= 1 THEN UpdBatch(AuthSigners, {1}) ELSE {})
+  \cup (IF Len(s.batch["1"]) = 2 THEN UpdBatch({"p1", "p2"}, {1}) ELSE {})      \* a second update under the same last finalized output
+  \cup (IF s.now = 4 THEN ExpImp ELSE {})
   \cup (IF Has(s.cfg, "1") /\ ~s.cfg["1"].oracle THEN UpdOracle(AuthSigners, {1}) ELSE {})
   \cup (IF Has(s.cfg, "1") /\ s.cfg["1"].meta.cls = "none" THEN UpdMeta(AuthSigners, {1}, {[cls |-> "plain", chs |-> << >>]}) ELSE {})
   \cup (IF s.fee = 0 THEN UpdParams(AuthSigners, {1}) ELSE {})
